@@ -602,3 +602,46 @@ Qed.
 (* a make_quaint whose payload constructor throws creates nothing and destroys nothing *)
 Theorem failed_make_changes_nothing st i t : q_step st (MakeThrows i t) = st.
 Proof. reflexivity. Qed.
+
+(* ---- re-entrant payloads ---- *)
+Theorem pointer_empty_while_deleter_runs st i p :
+  is_live (nth_error (pool st) i) = Some p -> slot_is_null (forget st i) i = true.
+Proof.
+  intros H. apply is_live_some in H. unfold slot_is_null, forget. simpl.
+  rewrite (nth_error_setn_eq _ _ _ _ H). reflexivity.
+Qed.
+
+Lemma reenter_on_empty_noop st i a : slot_is_null st i = true -> reenter st i a = st.
+Proof.
+  unfold slot_is_null. intros H. destruct (nth_error (pool st) i) as [[|[q|]]|] eqn:E; try discriminate.
+  destruct st as [h pool v]. simpl in E.
+  destruct a; simpl; rewrite E; simpl; rewrite (setn_same _ _ _ E); reflexivity.
+Qed.
+
+Lemma reenter_all_on_empty_noop i acts : forall st, slot_is_null st i = true ->
+  fold_left (fun s a => reenter s i a) acts st = st.
+Proof.
+  induction acts as [|a acts IH]; intros st H; simpl; auto.
+  rewrite (reenter_on_empty_noop st i a H). apply IH. exact H.
+Qed.
+
+Theorem reentrant_reset_is_reset st i acts : reset_reentrant st i acts = q_step st (Reset i).
+Proof.
+  unfold reset_reentrant. simpl. destruct (is_live (nth_error (pool st) i)) as [p|] eqn:E; auto.
+  rewrite (reenter_all_on_empty_noop i acts (forget st i) (pointer_empty_while_deleter_runs st i p E)).
+  reflexivity.
+Qed.
+
+(* histories that end in (and, by induction over q_run, contain) resets of re-entrant payloads keep the invariant:
+   every object destroyed at most once, by its own destructor, alive iff exactly one owner *)
+Theorem reentrant_reset_state_ok n ops i acts :
+  q_state_ok (reset_reentrant (q_run (q_init n) ops) i acts) = true
+  /\ slot_is_null (reset_reentrant (q_run (q_init n) ops) i acts) i
+     = match is_live (nth_error (pool (q_run (q_init n) ops)) i) with Some _ => true | None => slot_is_null (q_run (q_init n) ops) i end.
+Proof.
+  rewrite reentrant_reset_is_reset. split.
+  - change (q_step (q_run (q_init n) ops) (Reset i)) with (fold_left q_step [Reset i] (q_run (q_init n) ops)).
+    unfold q_run. rewrite <- fold_left_app. apply (q_state_ok_reach n (ops ++ [Reset i])).
+  - simpl. destruct (is_live (nth_error (pool (q_run (q_init n) ops)) i)) as [p|] eqn:E; auto.
+    apply is_live_some in E. unfold slot_is_null. simpl. rewrite (nth_error_setn_eq _ _ _ _ E). reflexivity.
+Qed.
